@@ -37,16 +37,17 @@ from dclab.cached import Cache
 
 ID = "C12"
 RULE = ("Hypothesis-generated dataset (3 scalar features; clustered / uniform / "
-        "tie-heavy / lognormal / signed / integer data, n = 1..2000, NaN/inf "
+        "tie-heavy / lognormal / signed / integer data, n = 1..700 (thorough: "
+        "3000), NaN/inf "
         "among the events) x filter (manual, box, remove-invalid, limit, "
         "disabled) x poison on excluded events x 2..5 analysis queries; a case "
         "is non-trivial when filtering is enabled, the filter excludes >= 1 "
         "poisoned event and selects >= 6 events; distinct = sha1 of the "
         "canonical JSON spec")
 BUDGET = {"quick": 3200, "thorough": 48000}
-#: blunt defects fail dozens of sub-checks; 4 find-and-shrink rounds per shard
+#: blunt defects fail dozens of sub-checks; 3 find-and-shrink rounds per shard
 #: are enough to name them and keep a failing run inside the time limit
-MAX_ROUNDS = 4
+MAX_ROUNDS = 3
 TIMEOUT = {"quick": 1500}
 ESSENTIAL = ["poisoned-excluded", "sel:6+", "sel:0", "sel:1-5",
              "filter:box", "filter:manual", "filter:invalid", "filter:limit",
@@ -92,7 +93,7 @@ _scale = st.sampled_from(["linear", "linear", "linear", "log"])
 
 
 @st.composite
-def st_data(draw):
+def st_data(draw, nmax=700):
     kind = draw(st.sampled_from(["explicit", "small", "medium", "medium",
                                  "medium", "medium", "medium", "large"]))
     if kind == "explicit":
@@ -108,7 +109,7 @@ def st_data(draw):
                 "z": draw(st.lists(st.integers(0, 20).map(float),
                                    min_size=n, max_size=n))}
     n = {"small": st.integers(1, 14), "medium": st.integers(15, 260),
-         "large": st.integers(261, 2000)}[kind]
+         "large": st.integers(261, nmax)}[kind]
     return {"kind": "recipe", "n": draw(n), "seed": draw(_seed),
             "dist": draw(st.sampled_from(DISTS)),
             "nanfrac": draw(st.sampled_from([0.0, 0.0, 0.05, 0.2])),
@@ -177,11 +178,11 @@ def st_query(draw):
 
 
 @st.composite
-def st_spec(draw):
+def st_spec(draw, nmax=700):
     return {
         "fmt": draw(st.sampled_from(["dict", "dict", "dict", "hdf5"])),
         "feats": draw(st.integers(0, len(FEATS) - 1)),
-        "data": draw(st_data()),
+        "data": draw(st_data(nmax)),
         "filter": draw(st_filter()),
         "poison": {"seed": draw(_seed),
                    "frac": draw(st.sampled_from([0.0, 0.3, 0.6, 1.0, 1.0, 1.0])),
@@ -197,7 +198,8 @@ def st_spec(draw):
 
 
 def strategy(tier):
-    return st_spec()
+    # the O(n * positions) python loops of the multivariate estimator bound n
+    return st_spec(700 if tier == "quick" else 3000)
 
 
 def sample_view(spec):
